@@ -17,6 +17,7 @@ structure Pending where
   ctx : Bool
   out : Out
   now : Time := 0
+  inj : Bool := false      -- one SQL statement of this call was failed by the driver (ctx flag "3k")
   deriving Inhabited
 
 structure S where
@@ -136,7 +137,11 @@ def stepLine (s : S) (req resp : List String) : S × List String :=
           | some p =>
             (Mon.c01 s.dump ts p.op p.ctx p.out).map ("MON C01 " ++ ·) ++
             (Mon.c12Step s.dump ts p.op p.out).map ("MON C12 " ++ ·) ++
-            (if p.ctx then [] else (Mon.c13 s.dump ts p.op p.now).map ("MON C13 " ++ ·))
+            (if p.ctx then [] else (Mon.c13 s.dump ts p.op p.now).map ("MON C13 " ++ ·)) ++
+            -- a mutation that was ACKNOWLEDGED although the driver failed one of its statements must be in the database
+            (if p.inj && !p.ctx && !p.out.isErr && isMutation p.op && ts == s.dump && s.model.tasks != s.dump then
+              ["MON C13 a mutation was acknowledged (nil) although the SQL driver failed one of its statements, and it is absent from the database"]
+             else [])
         let nt := s.nontrivial || ts.any (·.state != .scheduled)
         ({ s with dump := ts, pending := none, nontrivial := nt }, d1 ++ mons ++ scribbleLeak ts)
     | _ => (s, ["DIFF parse bad dump"])
@@ -213,11 +218,16 @@ def stepLine (s : S) (req resp : List String) : S × List String :=
     (s, if resp == ["err", "invalid_task"] then [] else
       ["MON C14 a snapshot containing an invalid task was not refused: " ++ " ".intercalate resp])
   | _ =>
+    -- ctx flag "3k": the SQL driver failed the k-th statement boundary of the call: same two acceptable outcomes.
     -- ctx flag "2": the context was cancelled WHILE the call was running (at the implementation's first clock read).
     -- An implementation may complete the operation and report success (flag 0), or fail without effect (flag 1): the
     -- observed response decides which of the two is demanded; an error TOGETHER with an effect is `MON C01` below.
+    let inj := match req with
+      | _ :: f :: _ => f.length == 2 && f.startsWith "3"
+      | _ => false
     let req := match req with
-      | o :: "2" :: rest => o :: (if resp.head? == some "err" then "1" else "0") :: rest
+      | o :: f :: rest =>
+        if f == "2" || inj then o :: (if resp.head? == some "err" then "1" else "0") :: rest else req
       | _ => req
     match decReq req with
     | none => (s, ["DIFF parse bad request " ++ " ".intercalate req])
@@ -249,7 +259,7 @@ def stepLine (s : S) (req resp : List String) : S × List String :=
            | .task t => (Mon.c12Task t).map ("MON C12 " ++ ·) ++ scribbleLeak [t]
            | .tasks ts => (ts.flatMap Mon.c12Task).map ("MON C12 " ++ ·) ++ scribbleLeak ts
            | _ => [])
-        ({ s with model := m', mem := mem', pending := some { op, ctx, out, now }, ops := s.ops + 1,
+        ({ s with model := m', mem := mem', pending := some { op, ctx, out, now, inj }, ops := s.ops + 1,
                   errs := s.errs + (if out.isErr then 1 else 0),
                   nontrivial := s.nontrivial || out.isErr }, d ++ mons)
 
